@@ -1,0 +1,1 @@
+//! Hooks owned by property C13 (feature `verif-hooks`).
